@@ -65,7 +65,14 @@ func (f *far) Forwards() bool {
 	return f.applyAction&ActionForward != 0
 }
 
-func (f *far) parseFAR(farIE *ie.IE, fseid uint64, upf *upf, op operation) error {
+func (f *far) parseFAR(farIE *ie.IE, fseid uint64, upf *upf, op operation) (err error) {
+	// see parsePDR: a malformed IE must reject the request, not crash the agent.
+	defer func() {
+		if r := recover(); r != nil {
+			err = ErrOperationFailedWithReason("parse FAR", fmt.Sprint("malformed IE: ", r))
+		}
+	}()
+
 	f.fseID = (fseid)
 
 	farID, err := farIE.FARID()
